@@ -200,9 +200,11 @@ var Probes = []Probe{
 				return false, "" // an error value is acceptable
 			}
 			_ = c.Get("out").String()
-			for _, o := range c.Get("out").Array() {
-				if o == nil {
-					return true, "nil element in a global array"
+			if arr, ok := c.Get("out").Object().(*tengo.Array); ok {
+				for _, o := range arr.Value {
+					if o == nil {
+						return true, "nil element in a global array"
+					}
 				}
 			}
 			return false, ""
